@@ -6,7 +6,7 @@ import itertools
 
 from .. import automata as A
 from .. import blocks, e1, impl, linelang, refmodel
-from ..chartgen import mk
+from ..chartgen import RAW, mk
 from ..linelang import BL
 
 ID = "C08"
@@ -100,8 +100,8 @@ def check_B(ctx, ns):
         e1.report(ctx, "bpm-value-packed", text, PROBE_SRC, [[exp, [[0, 4, 4]], []]], got if len(str(got)) < 500 else str(got)[:500], "value %d is mis-decoded or rejected only inside the packed chart (line %d)" % (n, bad))
 
 
-def check_lines(ctx, lines, exp_ts, exp_a, what, res=960, tempo=("0 = B 1000000000",), exp_b=None):
-    text = mk(res=res, sync=["0 = TS 4"] + list(tempo) + lines)
+def check_lines(ctx, lines, exp_ts, exp_a, what, res=960, tempo=("0 = B 1000000000",), exp_b=None, song_extra=()):
+    text = mk(res=res, sync=["0 = TS 4"] + list(tempo) + lines, song_extra=list(song_extra))
     got = e1.run_probe(probe, text)
     ctx.case(text, sample=lambda: dict(lines=lines, expected_ts=exp_ts, expected_anchors=exp_a))
     ctx.evaluations += len(lines)
@@ -215,6 +215,9 @@ def run_shard(shard, ctx):
             if l1 == l2 or (b1 and b2):
                 continue
             eb = b1 or b2
+            # empty / blank lines in the section IN FRONT ([Song]): the sync section still gets exactly its lines
+            for blanks in ([RAW + ""], [RAW + "", 'Name = "n"', RAW + "  "], ["", RAW + "", RAW + ""]):
+                check_lines(ctx, [l1, l2], ts1 + ts2, a1 + a2, "%d blank line(s) inside [Song]" % len(blanks), exp_b=(eb or [[0, float(10**6).hex()]]), song_extra=blanks)
             for st in strays:
                 for lines in ([l1, st], [st, l1], [l1, st, l2], [l1, st, st, l2], [st, l1, l2, st]):
                     has2 = l2 in lines
